@@ -22,42 +22,41 @@ from ..lib.impl import Raised, call
 LEVEL = "other"
 CLAIM = dict(
     category="other",
-    text="Proved (Lean, DarsiaProps.C10). (1) Shared workflow BaseCorrection.__call__, OPERATIONAL model on a heap "
-    "(DarsiaModel.CorrHeap: array buffers with identity, image.img.copy(), the per-slice loop handing correct_array VIEWS, np.stack, "
-    "and an effectful correct_array that may write through its argument and may return it): the loop equals its pointwise "
-    "description (sliceLoop_spec); copy mode leaves the input buffer untouched for EVERY correct_array because the views are taken "
-    "from the working copy (heap_copy_series_input_untouched, heap_copy_single_input_untouched, heap_array_copy_untouched); with views "
-    "of image.img - the tree before this round's fix - it is untouched IF AND ONLY IF correct_array does not change what it is "
-    "handed (heap_copy_series_original_iff, witness heap_original_views_leak); series data = stack of correct_array on the slices "
-    "in order (heap_series_per_slice); object identity and metadata (heap_object_identity); in-place visibility with overwrite on "
-    "arrays (heap_array_overwrite_in_place). The older specification-level model Corr.callImage and its `_partial` / `_def` theorems "
-    "are definitional unfoldings (labelled so); series_routine_precedence is tied by the toy correction only (no DarSIA class "
-    "defines correct_array_series). "
-    "(2) Concrete corrections whose array function is DarSIA's own index logic are modelled "
-    "themselves (DarsiaModel.Corrections) and for them purity (the result depends only on dtype, shape and the values inside the "
-    "box), neutrality and the series/copy/overwrite behaviour are theorems without that assumption: TypeCorrection between "
-    "uint8/uint16/float64 incl. skimage's data-dependent branch and the ValueError path (type_pure, type_neutral, type_roundtrip_u8, "
-    "type_guard, type_never_raises_from_int), whole-pixel and inactive TranslationCorrection (trans_pure, trans_neutral; "
-    "trans_is_shift_def, trans_inactive_def, drift_inactive_def are definitional), "
-    "RotationCorrection's own warp clip(astype(int)(anchor + R_inv (v - anchor))) in 2-D and 3-D (rot2_pure, rot3_pure, rot2_neutral, "
-    "rot3_neutral; its quarter turns = np.rot90 are DarsiaProps.C09.rotcorr_quarter_turn_2d/3d), "
-    "TransformationCorrection (transf_pure, transf_neutral) and the transparency of its per-object cache over any call history "
-    "(transf_cache_transparent); concrete_workflow / concrete_neutral_series instantiate the workflow with these functions. Each "
-    "model is tied EXACTLY to the code on integer / dyadic payloads (RotationCorrection with exactly representable matrices set on "
-    "the object; TransformationCorrection histories incl. arrays larger / smaller than the source system: IndexError path). The heap "
-    "model is tied exactly through toy corrections (in place and/or returning their argument) on Image / ScalarImage / OpticalImage, "
-    "single and series, copy and overwrite, with name, dimensions, origin, class and series flag of the result compared. Only observed (not proved): purity / neutrality of the remaining corrections (curvature: scipy map_coordinates, "
-    "colour, illumination, fitted affine / generalised perspective, float32 and general cv2.warpAffine translations), searched by "
-    "the oracle over configurations x input kinds x overwrite x shapes x dtypes (incl. the two configurations that declare a metadata "
-    "update - a cropping CurvatureCorrection and GeneralizedPerspectiveCorrection - with the INPUT's metadata compared against a deep snapshot, and transformations "
-    "expressed in physical coordinates - direct, and fitted with isometry - on non-dyadic voxel sizes).",
-    note="cv2.warpAffine is exact for whole-pixel translations and skimage img_as_* follow the modelled rules: contracts tied by "
-    "correspondence, not proved. RotationCorrection built from an ANGLE of pi/2 carries float noise (cos = 6e-17) on rounding "
-    "breakpoints, so the quarter-turn theorems are tied through exact matrices. The active ColorCorrection is compared at 1e-3 "
-    "instead of exactly: its swatch extraction uses cv2.kmeans with random centres (OpenCV's global RNG), so two calls on the same "
-    "array differ by ~2e-5.",
-    technique="Lean 4 proof of the shared workflow and of concrete correction models + exact differential correspondence (toy "
-    "correction and concrete corrections on real arrays / images) + property oracle over concrete corrections",
+    text="PROVED (Lean, DarsiaProps.C10). "
+    "(a) Operational workflow on a heap (DarsiaModel.CorrHeap; correct_array may write through its argument or return it): "
+    "sliceLoop_spec, heap_copy_series_input_untouched, heap_copy_single_input_untouched, heap_array_copy_untouched (copy mode leaves the "
+    "input untouched for EVERY correct_array), heap_copy_series_original_iff + heap_original_views_leak (the tree before the fix), "
+    "heap_series_per_slice, heap_object_identity, heap_array_overwrite_in_place. "
+    "(b) Concrete corrections modelled themselves (DarsiaModel.Corrections / Corrections2), purity = the result depends only on dtype, "
+    "shape and the values inside the box: TypeCorrection u8/u16/f64 incl. skimage's data-dependent branch and the ValueError path "
+    "(type_pure, type_neutral, type_roundtrip_u8, type_guard, type_never_raises_from_int); whole-pixel / inactive "
+    "TranslationCorrection (trans_pure, trans_neutral); RotationCorrection's clip/astype(int) warp 2-D/3-D (rot2_pure, rot3_pure, "
+    "rot2_neutral, rot3_neutral; quarter turns in C09); TransformationCorrection (transf_pure, transf_neutral; cache: "
+    "C09.warp_cache_tracks_parameters); CurvatureCorrection with the interpolation routine and the OpenCV crop as parameters "
+    "(transformCoords_neutral, stage_neutral, stage_congr, curvField_neutral, curv_neutral, curv_pure - CONDITIONAL on the routine being exact at "
+    "in-range integer positions and local, which is proved for order 0 (interpNearest_contracts) AND for order 1, the default "
+    "(interpLinear_contracts); curv_cache_transparent (memory cache, any history), curv_filecache_transparent (use_cache file shared by "
+    "several objects), curv_cache_stale_witness (before the fixes), adapt_neutral); IlluminationCorrection (illum_pure, illum_neutral, "
+    "illum_scalar_colourspace); active DriftCorrection with the translation estimate as parameter (drift_active). "
+    "DEFINITIONAL / TRIVIAL (labelled so in the Lean docstrings; no content beyond the model's definition): copy_mode_partial, "
+    "overwrite_mode_partial, series_per_slice_partial, neutral_is_identity_partial, series_routine_precedence (toy-only: no DarSIA class "
+    "defines correct_array_series), array_mode_def, trans_is_shift_def, trans_inactive_def, drift_inactive_def, concrete_workflow, "
+    "concrete_neutral_series, transf_cache_transparent (constant-cache induction). "
+    "TIED exactly: heap model through toy corrections (in place / returning their argument) on Image / ScalarImage / OpticalImage, "
+    "single and series, copy and overwrite, arrays; type / translation / rotation (exact matrices set on the object) / inactive drift / "
+    "transformation incl. IndexError path; curvature polynomial via ramp fields (1e-4) and whole correct_array for order 0 (exact) and "
+    "order 1 (1e-3), breakpoint-aware, incl. resize_factor, memory- and file-cache histories (crop = none in this tie: the OpenCV crop is "
+    "a parameter); illumination exactly (integer images with scalings <= 1 only: an overflowing store is C-undefined); active drift with "
+    "the estimator stubbed. "
+    "ONLY OBSERVED (oracle over configurations x input kinds x overwrite x shapes x dtypes, histories, file cache): the OpenCV crop, "
+    "colour corrections, IlluminationCorrection.setup, fitted affine / generalised-perspective corrections, float32 and general "
+    "cv2.warpAffine translations, the feature-based translation estimate; that scipy / cv2 / skimage behave as the parameters and "
+    "tabulated rules say.",
+    note="The active ColorCorrection is compared at 1e-3 instead of exactly: its swatch extraction uses cv2.kmeans with random centres "
+    "(OpenCV's global RNG), so two calls on the same array differ by ~2e-5. RotationCorrection built from an ANGLE of pi/2 carries "
+    "float noise on rounding breakpoints, so its quarter-turn theorems (C09) are tied through exact matrices.",
+    technique="Lean 4 proofs over operational models (heap workflow, concrete corrections, caches as state) + exact differential "
+    "correspondence + property oracle over concrete corrections",
 )
 
 KINDS = ("array", "scalar", "optical", "series", "optical-series")
@@ -177,7 +176,7 @@ def heap_toy_line(c, src=None):
     ul = ([(0, int(u["name"]))] if "name" in u else []) + (
         [(1, int(u["dimensions"][0])), (2, int(u["dimensions"][1]))] if "dimensions" in u else []) + (
         [(3, int(u["origin"][0])), (4, int(u["origin"][1]))] if "origin" in u else [])
-    return (f"hcall {src or SLICE_SRC} {int(c['ow'])} {int(c['series'])} {c['a']} {c['b']} {int(c['inplace'])} {int(c['retarg'])} {len(m)} "
+    return (f"hcall {int(c['ow'])} {int(c['series'])} {c['a']} {c['b']} {int(c['inplace'])} {int(c['retarg'])} {len(m)} "
             + " ".join(f"{k} {v}" for k, v in m) + f" {len(ul)} " + " ".join(f"{k} {v}" for k, v in ul) + f" {c['T']} "
             + " ".join(f"{sl.size} " + " ".join(str(int(x)) for x in sl.ravel()) for sl in slices))
 
@@ -574,32 +573,54 @@ def corr_round4(ctx, d):
         k = diffs[0]
         ctx.mark("CORR-BROKEN", {"correspondence": name, "request": lines[k], "model": got[k][:300], "impl": str(vals[k])[:300], "n_diffs": len(diffs)})
         ctx.log(f"correspondence {name}: {len(diffs)} disagreements, e.g. {lines[k]}")
-    # --- whole CurvatureCorrection.correct_array with order-0 interpolation: stage pipeline, grid order, resize_factor, cache
+    # --- whole CurvatureCorrection.correct_array, interpolation order 0 and 1 (the default): stage pipeline, grid order,
+    # resize_factor, in-memory cache over same- and other-shape histories, and the FILE cache shared by several objects
+    import shutil
+
     lines, impl = [], []
-    for i in range(ctx.pick(24, 240)):
-        stages = {"init": rand_bs(rng, "bulge") if i % 5 == 0 else None, "bulge": rand_bs(rng, "bulge") if i % 2 == 0 else None,
+    for i in range(ctx.pick(36, 300)):
+        order = i % 2
+        use_file = (i // 2) % 3 == 0
+        stages = {"init": rand_bs(rng, "bulge") if i % 5 == 0 else None, "bulge": rand_bs(rng, "bulge") if i % 4 < 2 else None,
                   "stretch": rand_bs(rng, "stretch") if i % 3 != 1 else None}
         f = Fr(1) if i % 4 else Fr(rng.choice([2, 1]), rng.choice([1, 2]))
         shape = (rng.randint(2, 6), rng.randint(2, 6))
-        hist_shapes = [shape] * rng.randint(0, 2) if i % 6 else [(rng.randint(2, 6), rng.randint(2, 6))]
         mk = lambda sh: np.array([rng.randint(1, 99) for _ in range(sh[0] * sh[1])], dtype=np.float64).reshape(sh)  # noqa: E731
-        hist, a = [mk(sh) for sh in hist_shapes], mk(shape)
-        tok = lambda x: " ".join(str(n) for n in x.shape) + " " + " ".join(fmt(v) for v in x.ravel())  # noqa: E731
-        lines.append(f"curv {fmt(f)} " + " ".join("1 " + bs_tokens(stages[k]) if stages[k] else "0" for k in ("init", "bulge", "stretch"))
-                     + f" {len(hist)} " + " ".join(tok(h) for h in hist) + (" " if hist else "") + tok(a))
+        hist = []
+        for _ in range(rng.randint(0, 3)):
+            sh = shape if rng.random() < 0.5 else (rng.randint(2, 6), rng.randint(2, 6))
+            hist.append((bool(use_file and rng.random() < 0.5), mk(sh)))
+        last_fresh = bool(use_file and rng.random() < 0.5)
+        a = mk(shape)
+        tok = lambda fr, x: f"{int(fr)} " + " ".join(str(n) for n in x.shape) + " " + " ".join(fmt(v) for v in x.ravel())  # noqa: E731
+        lines.append(f"curv {order} {int(use_file)} {fmt(f)} "
+                     + " ".join("1 " + bs_tokens(stages[k]) if stages[k] else "0" for k in ("init", "bulge", "stretch"))
+                     + f" {len(hist)} " + " ".join(tok(fr, h) for fr, h in hist) + (" " if hist else "") + tok(last_fresh, a))
 
         def run():
             cfg = {k: {kk: vv for kk, vv in bs_kwargs(v).items()} for k, v in stages.items() if v}
-            cc = d.CurvatureCorrection(config=cfg, interpolation_order=0, resize_factor=float(f))
-            for h in hist:
-                cc.correct_array(h.copy())
-            out = np.asarray(cc.correct_array(a.copy()))
+            tmp = tempfile.mkdtemp(prefix="darsia-verif-c10-") if use_file else None
+            try:
+                if use_file:
+                    cfg = dict(cfg, use_cache=True, cache=os.path.join(tmp, "grid.npy"))
+                new = lambda: d.CurvatureCorrection(config=cfg, interpolation_order=order, resize_factor=float(f))  # noqa: E731
+                cc = new()
+                for fr, h in hist:
+                    if fr:
+                        cc = new()
+                    cc.correct_array(h.copy())
+                if last_fresh:
+                    cc = new()
+                out = np.asarray(cc.correct_array(a.copy()))
+            finally:
+                if tmp:
+                    shutil.rmtree(tmp, ignore_errors=True)
             return " ".join(str(n) for n in out.shape) + " | " + " ".join(fmt(v) for v in out.ravel())
 
         r = call(run)
         impl.append(repr(r) if isinstance(r, Raised) else r)
     got = ctx.model(lines)
-    diffs, masked, total = [], 0, 0
+    diffs, masked, total, worst = [], 0, 0, 0.0
     for k, (g, v) in enumerate(zip(got, impl)):
         gt, vt = g.split(), str(v).split()
         if len(gt) != len(vt):
@@ -610,10 +631,19 @@ def corr_round4(ctx, d):
             if a_ == "?":
                 masked += 1
             elif a_ != b_:
-                diffs.append(k)
-                break
-    name = "CurvatureCorrection.correct_array (order 0: stage pipeline, resize_factor, grid cache incl. other-shape history), breakpoint-aware"
+                # order 1: interpolated values, the grid is float32 in the code -> 1e-3 absolute on payloads 1..99
+                try:
+                    e = abs(float(Fr(a_)) - float(Fr(b_)))
+                except (ValueError, ZeroDivisionError):
+                    e = 1.0
+                worst = max(worst, e)
+                if e > 1e-3 or lines[k].split()[1] == "0":
+                    diffs.append(k)
+                    break
+    name = ("CurvatureCorrection.correct_array (order 0 exact / order 1 within 1e-3: stage pipeline, resize_factor, memory and file cache "
+            "over same- and other-shape histories), breakpoint-aware")
     _c[name] = {"cases": len(lines), "disagreements": len(diffs), "masked_cells": masked, "cells": total}
+    ctx.cov.setdefault("measured_float_error", {})[name] = worst
     for l in lines:
         ctx.count((name, l))
     if diffs:
@@ -1066,6 +1096,41 @@ def check_history_case(d, case, cfgs=None):
     return []
 
 
+def check_filecache_case(d, case):
+    """CurvatureCorrection with use_cache=True: a grid file written by one object for arrays of shape A must not decide the result
+    of another object (same config, same file) applied to an array of shape B"""
+    import shutil
+
+    shapes = [tuple(x) for x in case["shapes"]]
+    cfgd = {"bulge": dict(horizontal_bulge=case["hb"], horizontal_stretch=0.0, horizontal_center_offset=0, vertical_bulge=0.0,
+                          vertical_stretch=0.0, vertical_center_offset=0)}
+    arrs = [np.random.default_rng(case["seed"] + k).random(sh) for k, sh in enumerate(shapes)]
+    tmp = tempfile.mkdtemp(prefix="darsia-verif-c10-")
+    try:
+        path = os.path.join(tmp, "grid.npy")
+
+        def run():
+            outs = []
+            for a in arrs:
+                c = d.CurvatureCorrection(config=dict(cfgd, use_cache=True, cache=path))
+                outs.append(c.correct_array(a.copy()))
+            return outs[-1]
+
+        got = call(run)
+        exp = call(lambda: d.CurvatureCorrection(config=dict(cfgd)).correct_array(arrs[-1].copy()))
+    finally:
+        shutil.rmtree(tmp, ignore_errors=True)
+    if isinstance(exp, Raised):
+        return []
+    tag = "same-shape" if all(sh == shapes[-1] for sh in shapes) else "other-shape"
+    if isinstance(got, Raised):
+        return [(f"C10:curvature(use_cache):file-cache({tag}):raises", f"{got}")]
+    if got.shape != exp.shape or not np.allclose(got, exp, rtol=0, atol=1e-12):
+        return [(f"C10:curvature(use_cache):file-cache({tag}):result-depends-on-cached-file",
+                 f"grid file written for shape {shapes[0]}: the result for shape {shapes[-1]} is {got.shape}, without the file {exp.shape}")]
+    return []
+
+
 def oracle(ctx, d):
     cfgl = configs(d, ctx.rng)
     cfgs = {c["name"]: c for c in cfgl}
@@ -1098,6 +1163,13 @@ def oracle(ctx, d):
             ctx.count(("history", cname, rep))
             for sig, what in check_history_case(d, case, cfgs):
                 ctx.fail(sig, what, {"case": case, "observed": what})
+    for rep in range(ctx.pick(4, 16)):
+        sh = (ctx.rng.randint(3, 7), ctx.rng.randint(3, 7))
+        other = sh if rep % 2 == 0 else (ctx.rng.randint(3, 7), ctx.rng.randint(3, 7))
+        case = dict(filecache=True, shapes=[list(other), list(sh)], hb=ctx.rng.choice([0.0, 1e-3, -2e-3]), seed=ctx.rng.randrange(10**9))
+        ctx.count(("file-cache", rep))
+        for sig, what in check_filecache_case(d, case):
+            ctx.fail(sig, what, {"case": case, "observed": what})
     for i in range(ctx.pick(48, 240)):
         c = heap_toy_case(ctx.rng, i)
         ctx.count(("heap-toy", i))
@@ -1115,7 +1187,8 @@ def replay(data):
     if case is None:
         print(json.dumps(data, indent=1)[:4000])
         return 0
-    bad = check_heap_case(d, case) if case.get("heap_toy") else check_history_case(d, case) if case.get("history") else check_case(d, case)
+    bad = (check_heap_case(d, case) if case.get("heap_toy") else check_history_case(d, case) if case.get("history")
+           else check_filecache_case(d, case) if case.get("filecache") else check_case(d, case))
     print("case:", json.dumps(case)[:600])
     for sig, what in bad:
         print("FAILS:", sig, "--", what)
@@ -1132,7 +1205,8 @@ def run(ctx):
     for f in sorted((pathlib.Path(__file__).resolve().parents[2] / "corpus" / "C10").glob("*.json")):
         case = json.loads(f.read_text()).get("replay", {}).get("case")
         if case:
-            for sig, what in (check_heap_case(d, case) if case.get("heap_toy") else check_history_case(d, case) if case.get("history") else check_case(d, case)):
+            for sig, what in (check_heap_case(d, case) if case.get("heap_toy") else check_history_case(d, case) if case.get("history")
+                              else check_filecache_case(d, case) if case.get("filecache") else check_case(d, case)):
                 ctx.fail(sig, what, {"case": case, "observed": what})
     ctx.prove("C10")
     corr_workflow(ctx, d)
